@@ -109,6 +109,15 @@ impl log4rs::append::Append for CountingAppender {
     fn flush(&self) {}
 }
 
+/// Decorrelates a case index from the enumeration order of the model checker (variants chosen by `i % k` would
+/// otherwise line up with the fastest-changing fields of the enumerated records).
+pub fn mix(i: usize) -> usize {
+    let mut z = (i as u64).wrapping_add(0x9E3779B97F4A7C15);
+    z = (z ^ (z >> 30)).wrapping_mul(0xBF58476D1CE4E5B9);
+    z = (z ^ (z >> 27)).wrapping_mul(0x94D049BB133111EB);
+    ((z ^ (z >> 31)) >> 16) as usize
+}
+
 /// Runs a closure, converting a panic into Err(message).
 pub fn catch<R>(f: impl FnOnce() -> R) -> Result<R, String> {
     match std::panic::catch_unwind(std::panic::AssertUnwindSafe(f)) {
